@@ -110,14 +110,34 @@ func c07Rules(p *core.Prog, r *core.Run) {
 		}
 	}
 	nErrRet := 0
+	// (the error returned may have been selected beforehand - `var err error;
+	// if len(c.readBuf) == 0 { err = c.readErr }; return n, err` - each way the
+	// value gets to the return counts with the conditions of that way)
+	type errAlt struct {
+		ret *ssa.Return
+		fs  []core.Fact
+	}
+	var alts []errAlt
 	for _, ret := range core.Returns(rd) {
-		e := p.X(retErr(ret))
-		if !(e.Op == "field" && e.Obj == readErr) {
-			continue
+		var expand func(v ssa.Value, fs []core.Fact, depth int)
+		expand = func(v ssa.Value, fs []core.Fact, depth int) {
+			if ph, ok := v.(*ssa.Phi); ok && depth < 3 {
+				for i, e := range ph.Edges {
+					expand(e, append(append([]core.Fact{}, fs...), p.EdgeFacts(ph.Block().Preds[i], ph.Block())...), depth+1)
+				}
+				return
+			}
+			if e := p.X(v); e.Op == "field" && e.Obj == readErr {
+				alts = append(alts, errAlt{ret, fs})
+			}
 		}
+		expand(retErr(ret), p.Facts(ret.Block()), 0)
+	}
+	for _, alt := range alts {
+		ret := alt.ret
 		nErrRet++
 		empty := false
-		for _, f := range p.Facts(ret.Block()) {
+		for _, f := range alt.fs {
 			if f.L.Op == "call" && f.L.Name == "len" && f.L.Args[0].Op == "field" && f.L.Args[0].Obj == m.fConn["readBuf"] && f.R != nil && f.R.Name == "0" && (f.Op == "==" || f.Op == "<=") {
 				// the length tested must be read after the last store to readBuf in this function on the way
 				empty = true
